@@ -6,7 +6,7 @@ from ..core import HEADER, CASE_TYPE, CHECK, MODEL_VIEW, SHARD, CASE_TIMEOUT, ob
 
 ID = "C09"
 THEOREMS = ["C09_inline", "C09_undefined_macro", "C09_too_few_arguments", "C09_deferred_argument", "C09_code_splice",
-            "C09_code_splice_not_code"]
+            "C09_code_splice_not_code", "C09_inline_deferred", "C09_deferred_flag", "C09_deferred_assembly"]
 RULE = ("generated macro definitions (0-3 parameters, all statement kinds in bodies, local labels, nested calls, code-block "
         "parameters) x argument expressions (literals, constants, backward/forward labels, names equal to parameter names) "
         "x 1-4 applications; each program is compared with the model and with its mechanically inlined twin "
@@ -14,12 +14,16 @@ RULE = ("generated macro definitions (0-3 parameters, all statement kinds in bod
 PROVED_NOTE = ("proved: an application whose arguments evaluate at the call site generates exactly the nodes and resolver "
                "state of the block { p1 := v1 ... pn := vn body } (literal-bound twin), in its own scope; undefined macro and "
                "too few arguments fail. a deferred (forward-label) argument is bound, when the passes run, to its value in the caller's scope. "
-               "Correspondence-only: the whole-program equality with the inlined twin for deferred and code-block arguments.")
+               "With any mix of evaluated and deferred arguments the application generates the nodes of the inlined block up to "
+               "the lookup scope of the deferred parameters, and the two whole assemblies are equal when no deferred expression "
+               "mentions a name bound in the block scope itself (exact capture condition, with examples both ways); a code-block "
+               "parameter splice generates the argument's statements in place. Correspondence-only: applications mixing code-block "
+               "arguments with the rest, end to end (inlined twins).")
 MANIFEST = {
     "text": ("Coq theorem over the Gallina model of generate_macro_application (all macros/arguments of the eager kind); model "
              "tied to the code by differential runs; oracle: the implementation's output for the program equals its output for "
              "the mechanically inlined twin."),
-    "note": "Partial for deferred and code-block arguments (twin + correspondence only). Trusted: Coq kernel/vm_compute, harness. No axioms.",
+    "note": "Partial for code-block arguments end to end (twin + correspondence only). Trusted: Coq kernel/vm_compute, harness. No axioms.",
     "technique": "Coq proof (definitional equality of expansions) + differential correspondence + inlined twins",
 }
 
